@@ -10,12 +10,15 @@ from ropt.results import FunctionResults, Results
 def _get_new_optimal_result(
     optimal_result: FunctionResults | None, results: FunctionResults
 ) -> FunctionResults | None:
+    assert results.functions is not None
+    objective = results.functions.weighted_objective
+    # A result without a valid objective value can never be optimal:
+    if np.isnan(objective):
+        return None
     if optimal_result is None:
         return results
     assert optimal_result.functions is not None
-    assert results.functions is not None
     optimal = optimal_result.functions.weighted_objective
-    objective = results.functions.weighted_objective
     if objective < optimal:
         return results
     return None
